@@ -488,6 +488,19 @@ func RunWalletDil(ep *Episode) *Result {
 		w.add("export-failed", cfg, oc.pval)
 		return res
 	}
+	// the strings exactly as exported (no copy): another key's export in the same
+	// process must not rewrite them while the wallet still holds them
+	heldHex, heldMnem := orig.GetHexSeed(), orig.GetMnemonic()
+	guard(func() {
+		var s2 [48]byte
+		core.NewRand(ep.DrainSeed ^ 0xd2).Bytes(s2[:])
+		if o2, err := dilithium.NewDilithiumFromSeed(s2); err == nil {
+			_ = o2.GetHexSeed() + o2.GetMnemonic()
+		}
+	})
+	if heldHex != durHex || heldMnem != durMnem {
+		w.add("exported-secret-rewritten", cfg, "a hex seed / mnemonic string the wallet still held was rewritten by another key's export")
+	}
 	orig = nil // crash
 
 	for _, form := range ep.Forms {
